@@ -366,3 +366,59 @@ Print Assumptions C08_string_parser_translated.
 Print Assumptions C08_next_translated.
 Print Assumptions C08_command_translated.
 Print Assumptions C08_command_total_translated.
+
+(* ================================================================ phase 4: the translated decoders *)
+From GoMC Require Import Proofs.C08_tie_dec.
+
+(* the model's control skeletons ARE the interpretations of the translated decoder bodies: on every
+   byte string the interpretation of the Go body (its loops, the order of its reads, the negative-length
+   test, the id-range test, the make length and the index guards values[i], reg.values[id]) and the
+   model give the same outcome and the same residual input, as soon as both fuels exceed its length *)
+Theorem C08_tags_translated : forall F M nv s, (length s < F)%nat -> (length s < M)%nat ->
+  run_flat (tags_interp F nv) s = run_flat (tags_read M nv) s.
+Proof. exact tags_interp_ok. Qed.
+Theorem C08_idle_tags_translated : forall F M s, (length s < F)%nat -> (length s < M)%nat ->
+  run_flat (idle_interp F) s = run_flat (idle_tags M) s.
+Proof. exact idle_interp_ok. Qed.
+Theorem C08_registry_translated : forall ne, (forall i, robust (ne i)) ->
+  forall F M s, (length s < F)%nat -> (length s < M)%nat ->
+  run_flat (registry_interp ne F) s = run_flat (registry_read ne M) s.
+Proof. exact registry_interp_ok. Qed.
+Theorem C08_update_tags_translated : forall F M known s, (length s < F)%nat -> (length s < M)%nat ->
+  run_flat (update_tags_interp known (idle_tags M) (tags_read M) F) s = run_flat (update_tags M known) s.
+Proof. exact update_tags_interp_model. Qed.
+
+(* totality over the interpretation of the translated source: on every byte string every guard reached
+   (make length, values[i], reg.values[id]) holds or the function has already returned an error *)
+Theorem C08_tags_total_translated : forall F nv s, (length s < F)%nat -> ok_or_err (run_flat (tags_interp F nv) s).
+Proof.
+  intros F nv s HF. rewrite (tags_interp_ok F (Datatypes.S (length s)) nv s HF (Nat.lt_succ_diag_r _)).
+  apply tags_read_total. apply Nat.lt_succ_diag_r.
+Qed.
+Theorem C08_idle_tags_total_translated : forall F s, (length s < F)%nat -> ok_or_err (run_flat (idle_interp F) s).
+Proof.
+  intros F s HF. rewrite (idle_interp_ok F (Datatypes.S (length s)) s HF (Nat.lt_succ_diag_r _)).
+  apply idle_tags_total. apply Nat.lt_succ_diag_r.
+Qed.
+Theorem C08_registry_total_translated : forall ne, (forall i, sub_ok (ne i)) ->
+  forall F s, (length s < F)%nat -> ok_or_err (run_flat (registry_interp ne F) s).
+Proof.
+  intros ne H F s HF.
+  rewrite (registry_interp_ok ne (fun i => proj1 (H i)) F (Datatypes.S (length s)) s HF (Nat.lt_succ_diag_r _)).
+  apply C08_registry_total; [exact H|apply Nat.lt_succ_diag_r].
+Qed.
+Theorem C08_update_tags_total_translated : forall F known s, (length s < F)%nat ->
+  ok_or_err (run_flat (update_tags_interp known (idle_tags (Datatypes.S (length s))) (tags_read (Datatypes.S (length s))) F) s).
+Proof.
+  intros F known s HF. rewrite (update_tags_interp_model F _ known s HF (Nat.lt_succ_diag_r _)).
+  apply update_tags_total. apply Nat.lt_succ_diag_r.
+Qed.
+
+Print Assumptions C08_tags_translated.
+Print Assumptions C08_idle_tags_translated.
+Print Assumptions C08_registry_translated.
+Print Assumptions C08_update_tags_translated.
+Print Assumptions C08_tags_total_translated.
+Print Assumptions C08_idle_tags_total_translated.
+Print Assumptions C08_registry_total_translated.
+Print Assumptions C08_update_tags_total_translated.
